@@ -81,6 +81,7 @@ type jLsEv struct {
 	I       int        `json:"i"`
 	Op      string     `json:"op"`
 	Flavour string     `json:"flavour"`
+	PL      bool       `json:"pl"` // Reopen: the machine lost power after the orderly Close
 	Ups     []jUp      `json:"ups"`
 	N       int        `json:"n"`
 	Idx     uint64     `json:"idx"`
@@ -380,6 +381,15 @@ func (s *lsSim) genUpdate(k int) (pb.Update, jUp) {
 		}
 		ud.EntriesToSave = s.mkEnts(n, n.last+1, cnt, n.lastTerm)
 		n.last += uint64(cnt)
+	case c >= 93 && s.crashMode && n.hasState && n.commit < n.last && s.forceCnt == 0:
+		// nothing but a new commit index (Tan does not sync such an update)
+		n.commit += 1 + uint64(s.rng.Intn(int(n.last-n.commit)))
+		ud.State = pb.State{Term: n.term, Vote: n.vote, Commit: n.commit}
+		ju.HasS, ju.St = true, [3]uint64{n.term, n.vote, n.commit}
+		if n.commit > n.floor {
+			n.floor = n.commit
+		}
+		return ud, ju
 	default: // overwrite a suffix with a newer term
 		if n.last > n.floor {
 			from := n.floor + 1 + uint64(s.rng.Intn(int(n.last-n.floor)))
@@ -557,6 +567,8 @@ func (s *lsSim) saveFsError() {
 		}
 	}()
 	hit := atomic.LoadInt32(&s.inj.fired) == 1
+	afterRm := uint64(0)
+	var after lsNode
 	atomic.StoreInt64(&s.inj.onceAt, 0)
 	atomic.StoreInt32(&s.inj.fired, 0)
 	if res == "ok" {
@@ -569,6 +581,8 @@ func (s *lsSim) saveFsError() {
 			return
 		}
 	} else {
+		afterRm = s.nodes[k].rm
+		after = *s.nodes[k]
 		*s.nodes[k] = saved
 		s.emit(jLsEv{Op: "SaveFailed", Ups: []jUp{ju}, Res: res, At: at})
 	}
@@ -581,10 +595,23 @@ func (s *lsSim) saveFsError() {
 	}()
 	s.flushAll("/ls")
 	s.open()
+	// the failed save may be visible after all. If it carried a restored snapshot the log restarts at that
+	// index and nothing at or below it is ever asked for again (the log reader answers ErrCompacted there):
+	// the queries of this panel keep to the range that is meaningful in both cases
+	beforeRm := s.nodes[k].rm
+	if afterRm > beforeRm {
+		s.nodes[k].rm = afterRm
+	}
 	ps := s.panels([]int{k})
+	s.nodes[k].rm = beforeRm
 	s.emit(jLsEv{Op: "Reopen", Panels: ps})
 	for _, p := range ps {
 		n := s.nodes[p.N]
+		if res != "ok" && after.ss > saved.ss && p.Ss == after.ss {
+			// the failed save is visible and restored a snapshot: the driver's picture is the one it
+			// had drawn for the successful save (log restarted at the snapshot index)
+			*n = after
+		}
 		if p.RsErr != "" {
 			*n = lsNode{Shard: n.Shard, Replica: n.Replica, lastTerm: n.lastTerm, terms: map[uint64]uint64{}}
 			continue
@@ -674,12 +701,28 @@ func (s *lsSim) run(steps int) {
 			if err := s.db.Close(); err != nil {
 				panic(err)
 			}
+			// crash mode: the machine loses power some time after the store was closed in an orderly way
+			// (nothing was synced by anybody after Close returned): every acknowledged save must still
+			// be there
+			pl := s.crashMode && s.rng.Intn(2) == 0
+			if pl {
+				s.mem.ResetToSyncedState()
+			}
 			s.open()
 			all := []int{}
 			for i := range s.nodes {
 				all = append(all, i)
 			}
-			s.emit(jLsEv{Op: "Reopen", Panels: s.panels(all)})
+			ps := s.panels(all)
+			s.emit(jLsEv{Op: "Reopen", PL: pl, Panels: ps})
+			if pl {
+				// an update that only moved the commit index may be gone: continue from what is there
+				for _, p := range ps {
+					if p.RsErr == "" && s.nodes[p.N].hasState {
+						s.nodes[p.N].commit = p.St[2]
+					}
+				}
+			}
 		default:
 			all := []int{}
 			for i := range s.nodes {
